@@ -58,6 +58,7 @@ def oracle_c01(c):
 
 def oracle_c02(c):
     pr = orc.check_errors(c.doc, c.real["data"], c.real["errors"], c.real["raw"].get("errors") or [])
+    pr += [p for p in orc.check_conforms(c.b.model, c.doc, c.op, c.variables, c.real["data"]) if p.startswith("null at non-null")]
     if c.real["warnings"]: pr.append("asyncio warning: " + c.real["warnings"][0])
     return pr
 
@@ -100,6 +101,26 @@ def root_arg_problems(c, sv, op, coerced):
                 pr.append(f"{call['coord']} received {got[ad['name']]!r} for argument {ad['name']}: {tstr(ad['type'])} (a value of another type)")
         if not orc.py_equal_typed(got, exp):
             pr.append(f"{call['coord']} received {got!r}, specification prescribes {exp!r}")
+    # every selected root field with a resolver whose arguments coerce must have been called (once);
+    # one whose arguments do not coerce must fail that field only
+    if c.real["data"] is not None or any(e["path"] for e in c.real["errors"]):
+        called = {}
+        for call in c.real["calls"]:
+            if len(call["path"]) == 1: called[call["path"][0]] = called.get(call["path"][0], 0) + 1
+        resolvers = c.renv.get("resolvers") or {}
+        for key, nodes in sub.items():
+            fname = nodes[0]["name"]["value"]
+            fd = fields.get(fname)
+            if fd is None or f"{root}.{fname}" not in resolvers or resolvers[f"{root}.{fname}"]["k"] == "default": continue
+            try:
+                orc.coerce_arguments_spec(sv, fd["args"], nodes[0], coerced)
+                ok = True
+            except orc.Invalid:
+                ok = False
+            if ok and called.get(key, 0) != 1 and op["operation"] != "mutation":
+                pr.append(f"resolver of selected field {root}.{fname} (key {key}) called {called.get(key, 0)} times although its arguments coerce per the specification")
+            if not ok and not any(e["path"] and e["path"][0] == key for e in c.real["errors"]):
+                pr.append(f"arguments of {root}.{fname} (key {key}) do not coerce but no error is reported for that field")
     return pr
 
 def oracle_c04(c):
